@@ -984,6 +984,21 @@ def gen_C11(rng, tier):
             for kind, flags in ((0, [0]), (1, [0, 1]), (2, [0, 1, 2])):
                 for fl in flags:
                     cases.append(Case('f.%s.ser_flags %d %d %s' % (fld, kind, fl, H(a)), builds=('ark',), cls='%s:ser_flags%d' % (fld, kind)))
+            # user-defined flag types of 3..8 bits (the generic `Flags` API): the stream is the value bytes with the flags in the top
+            # bits of the last byte when they fit, else one extra byte; it must deserialise to the same value and flags
+            bits_ = m.bit_length()
+            for kind in (3, 4, 5, 6, 7, 8):
+                for fl in sorted({0, 1, (1 << kind) - 1, rng.randrange(1 << kind)}):
+                    mask = fl if kind == 8 else (fl << (8 - kind))
+                    vb = bytearray(a.to_bytes(n8, 'little'))
+                    if (bits_ + kind + 7) // 8 == n8:
+                        vb[-1] |= mask
+                    else:
+                        vb.append(mask)
+                    stream = bytes(vb).hex()
+                    cases.append(Case('f.%s.ser_flags %d %d %s' % (fld, kind, fl, H(a)), builds=('ark',), cls='%s:ser_flags-wide%d' % (fld, kind), oracle=expect(stream)))
+                    cases.append(Case('f.%s.deser_flags %d %s' % (fld, kind, stream), builds=('ark',), cls='%s:deser_flags-wide%d' % (fld, kind),
+                                      oracle=expect('ok %s %d' % (H(a), fl)), sig='flags-wide'))
             cases.append(Case('f.%s.display %s' % (fld, H(a)), builds=('ark',), cls='%s:display' % fld, oracle=expect(str(a) if a else '-')))
             cases.append(Case('f.%s.from_str %s' % (fld, str(a)), builds=('ark',), cls='%s:from_str' % fld, oracle=expect('ok ' + H(a))))
             cases.append(Case('f.%s.from_str %s' % (fld, '000' + str(a + m)), builds=('ark',), cls='%s:from_str' % fld, oracle=expect('ok ' + H(a))))
@@ -1281,6 +1296,12 @@ def gen_C13(rng, tier):
             cases.append(Case('g.iseq a=%s %s' % (h32(s_), b), builds=R, cls='iseq:' + cls, oracle=osat('1', '1'), canon=gcanon))
             cases.append(Case('g.enforce_eq a=%s %s' % (h32(s_), b), builds=R, cls='enforce_eq:' + cls, oracle=osat('1'), canon=gcanon))
             cases.append(Case('g.enforce_neq a=%s %s' % (h32(s_), b), builds=R, cls='enforce_neq:' + cls, oracle=osat('0'), canon=gcanon))
+            # conditional enforcement on two representatives of ONE element: enforced only when the flag holds (seed C13_r10)
+            for cmode in ('witness', 'const', 'input'):
+                for c in (0, 1):
+                    cases.append(Case('g.cenforce_eq a=%s %s c=%d cmode=%s' % (h32(s_), b, c, cmode), builds=R, cls='cenforce_eq:%s:c%d:%s' % (cls, c, cmode), oracle=osat('1'), canon=gcanon))
+                    cases.append(Case('g.cenforce_neq a=%s %s c=%d cmode=%s' % (h32(s_), b, c, cmode), builds=R, cls='cenforce_neq:%s:c%d:%s' % (cls, c, cmode),
+                                      oracle=osat('0' if c else '1'), canon=gcanon))
     for _ in range(8 if tier == 'quick' else 80):
         (ca, ma), (cb, mb) = rng.choice(els), rng.choice(els)
         for op in ('add', 'sub', 'add_ref', 'sub_ref', 'add_asg', 'sub_asg', 'add_const', 'sub_const', 'add_const_asg', 'sub_const_asg', 'iseq', 'select'):
@@ -1288,6 +1309,10 @@ def gen_C13(rng, tier):
         cases.append(Case('g.enforce_eq %s %s' % (ma('a'), mb('b')), builds=R, cls='enforce_eq', canon=gcanon))
         cases.append(Case('g.enforce_neq %s %s' % (ma('a'), mb('b')), builds=R, cls='enforce_neq', canon=gcanon))
         cases.append(Case('g.enforce_eq %s %s' % (ma('a'), ma('b')), builds=R, cls='enforce_eq:same', oracle=sat1, canon=gcanon))
+        for op in ('cenforce_eq', 'cenforce_neq'):
+            c = rng.randrange(2)
+            cases.append(Case('g.%s %s %s c=%d cmode=%s' % (op, ma('a'), mb('b'), c, rng.choice(['witness', 'const', 'input'])), builds=R, cls=op, canon=gcanon))
+            cases.append(Case('g.%s %s %s c=0 cmode=witness' % (op, ma('a'), mb('b')), builds=R, cls=op + ':unenforced', oracle=sat1, canon=gcanon))
     return cases
 
 
